@@ -113,18 +113,27 @@ theorem nan_row_model_divergence :
   · have := h0 [none, none] (by simp); simp at this
   · have := h0 [some 1, some 2] (by simp); simp at this
 
-/-- **F-C09d at model level**: a tracked animal whose stored feature is NaN (its score column is
-    `none`) — the only column is invalid, nothing is matched, the guard is false, `add_new_tracks` is
-    never reached: the detection comes back without a track although its score exceeds the threshold. -/
+/-- **F-C09d at model level** (behaviour before 6ecdd3f, `nanSafe = false`): a tracked animal whose
+    stored feature is NaN (its score column is `none`) — the only column is invalid, nothing is matched,
+    the guard is false, `add_new_tracks` is never reached: the detection comes back without a track
+    although its score exceeds the threshold. -/
 theorem nan_track_counterexample :
     let s : FW Nat := ⟨[⟨[7], [some 0]⟩], [0]⟩
-    FW.stepWith (⟨3, 0, .hungarian, .mean, Fixes.repaired⟩ : Config Int) (diagExt : Ext Int) s [(8, 1)] [[none]]
-        = .ok (s, [none]) ∧
+    FW.stepWith (⟨3, 0, .hungarian, .mean, ⟨true, true, true, false⟩⟩ : Config Int) (diagExt : Ext Int) s
+        [(8, 1)] [[none]] = .ok (s, [none]) ∧
       ¬ FrameOk (0 : Int) [((8 : Nat), (1 : Int))] [none] := by
   refine ⟨by decide, ?_⟩
   intro h
   obtain ⟨t, ht⟩ := h.complete 0 (by simp) (by decide)
   simp at ht
+
+/-- … and the repaired code (`Fixes.repaired`, `nanSafe = true`): the same call gives the detection a
+    new track and appends the frame -/
+theorem nan_track_repaired :
+    let s : FW Nat := ⟨[⟨[7], [some 0]⟩], [0]⟩
+    FW.stepWith (⟨3, 0, .hungarian, .mean, Fixes.repaired⟩ : Config Int) (diagExt : Ext Int) s
+        [(8, 1)] [[none]] = .ok (⟨[⟨[7], [some 0]⟩, ⟨[8], [some 1]⟩], [0, 1]⟩, [some 1]) := by
+  decide
 
 /-- `add_new_tracks` on `current_tracks = [0..m)`: matched ids are kept, every unmatched detection
     above the threshold gets a fresh id `≥ m`, ids stay distinct, `current_tracks` stays a range -/
